@@ -2003,3 +2003,47 @@ def c12_history_search(rp, seed):
         if bad:
             return r2, msg
     return None
+
+
+def _total_call(W, fn, x, t):
+    f = getattr(W, fn)
+    try:
+        r = f(x, t) if t is not None else f(x)
+    except (ArithmeticError, ValueError) as e:
+        return True, f"{fn}({x!r}{', ' + repr(t) if t is not None else ''}) raised {type(e).__name__}: {e}"
+    if not (isinstance(r, (int, float)) and math.isfinite(r)):
+        return True, f"{fn}({x!r}{', ' + repr(t) if t is not None else ''}) returned {r!r}"
+    return False, f"{fn} returns a finite value"
+
+
+@checker("c17_total")
+def c17_total(rp):
+    """no arithmetic exception, finite result, at the given finite x (and margin t)"""
+    W = wl_common()
+    x = float(num(rp["x"]))
+    t = float(num(rp["t"])) if rp.get("t") is not None else None
+    if not math.isfinite(x):
+        x = math.copysign(sys.float_info.max, x)
+    return _total_call(W, rp["fn"], x, t)
+
+
+@searcher("c17_total")
+def c17_total_search(rp, seed):
+    W = wl_common()
+    rnd = random.Random(seed)
+    t0 = float(num(rp["t"])) if rp.get("t") is not None else None
+    mags = [1e-320, 1e-160, 1e-8, 1.0, 8.2, 37.6, 38.5, 40.0, 1e3, 1e8, 1e77, 1.3e154, 1.4e154, 1e155, 1e200, 1e300, sys.float_info.max]
+    for mag in mags:
+        for sgn in (1.0, -1.0):
+            for t in ([t0, 1e-8, 1e-5, 1e-2] if t0 is not None else [None]):
+                x = sgn * mag
+                bad, msg = _total_call(W, rp["fn"], x, t)
+                if bad:
+                    return dict(rp, x=enc(x), t=enc(t) if t is not None else None), msg
+    for _ in range(300):
+        x = rnd.choice([-1, 1]) * 10 ** rnd.uniform(-300, 308)
+        t = 10 ** rnd.uniform(-8, -2) if t0 is not None else None
+        bad, msg = _total_call(W, rp["fn"], x, t)
+        if bad:
+            return dict(rp, x=enc(x), t=enc(t) if t is not None else None), msg
+    return None
